@@ -13,7 +13,13 @@ RECURSIVE BobRun(_, _, _, _, _)
 BobRun(st, steps, i, accept, nsLogged) ==
   IF i > Len(steps) THEN [ok |-> TRUE, st |-> st, last |-> "none"]
   ELSE LET s == steps[i]
-           allowed == BobReact(st, s.frame, s.cond, accept)
+           \* a peer that is gone (both directions of its stream dropped) right after a frame that asks for a reply: the reply
+           \* cannot be delivered, which is a reported error (the outcome still names the document of an allowed request)
+           goneExtra == IF "gone" \in DOMAIN s /\ s.gone
+                        THEN IF s.frame \in Inits /\ accept = "Allow" THEN {<<"err", [st EXCEPT !.ns = TRUE]>>}
+                             ELSE {<<"err", st>>}      \* (an undeliverable decline names no document)
+                        ELSE {}
+           allowed == BobReact(st, s.frame, s.cond, accept) \cup goneExtra
            hit == {r \in allowed : r[1] = s.reaction}
        IN IF hit = {} THEN [ok |-> FALSE, st |-> st, last |-> s.reaction]
           ELSE IF s.reaction \in Terminal
@@ -32,6 +38,9 @@ BobOk(r) ==
   \* (R.ok includes: the outcome names the document exactly when a request for it was allowed)
   /\ r.alive                          \* the store actor survived whatever the peer sent
   /\ (acc = "Reject" => ~r.changed)   \* a declined request changes nothing in the store
+  \* on success the counts mirror: what the acceptor says it sent is what this peer received in reply frames (a peer
+  \* that was gone before the reply received nothing)
+  /\ (r.res = "ok" /\ r.sent >= 0) => r.sent = r.got
 
 RECURSIVE AliceRun(_, _)
 AliceRun(steps, i) ==
